@@ -18,6 +18,9 @@ InsertAtV(x, i, v) == SubSeq(x, 1, i - 1) \o <<v>> \o SubSeq(x, i, Len(x))
 NoRet == [t |-> "none"]
 Ret(t, v) == [t |-> t, v |-> v]
 
+\* shape requests as for Matrix::new; transcription of the code for EMPTY data: an inferred dimension is then 0 (the crate has
+\* empty matrices, Matrix::empty() is 0 x 0), which the Matrix machine of Arrays (dimensions >= 1) does not model
+VShapeReq(n, r, c) == IF n = 0 /\ r = -1 /\ c > 0 THEN <<0, c>> ELSE IF n = 0 /\ c = -1 /\ r > 0 THEN <<r, 0>> ELSE A!ShapeReq(n, r, c)
 \* Apply(x, act) = [out, x (new state), ret]
 VApply(x, a) ==
   CASE a.op = "push"     -> [out |-> "ok", x |-> Append(x, a.a[1]), ret |-> NoRet]
@@ -43,7 +46,7 @@ VApply(x, a) ==
     [] a.op = "len"      -> [out |-> "ok", x |-> x, ret |-> Ret("num", Len(x))]
     [] a.op = "to_matrix" -> IF Len(x) = 0 THEN [out |-> "panic", x |-> x, ret |-> NoRet]           \* 1 x 0 is not a matrix
                              ELSE [out |-> "ok", x |-> x, ret |-> Ret("mat", A!Mat(1, Len(x), x))]
-    [] a.op = "reshape"  -> LET s == A!ShapeReq(Len(x), a.a[1], a.a[2]) IN
+    [] a.op = "reshape"  -> LET s == VShapeReq(Len(x), a.a[1], a.a[2]) IN
                             IF s = <<>> THEN [out |-> "panic", x |-> x, ret |-> NoRet]
                             ELSE [out |-> "ok", x |-> x, ret |-> Ret("mat", A!Mat(s[1], s[2], x))]
 \* invariants of the machine (TLC, MC_VectorObj): sorting is idempotent and keeps the multiset, diff shortens by one, ...
